@@ -1,0 +1,19 @@
+package command
+
+import "io"
+
+// VerifFakeCmd is the operating-system side of a CmdWrapper as seen by the
+// verification harness. It is only ever non-nil when the binary is built with
+// the `verif` build tag and a factory was installed (see verif_on.go).
+type VerifFakeCmd interface {
+	Start() error
+	Run() error
+	Wait() error
+	ExitCode() int
+	Pid() int
+	StdoutPipe() (io.ReadCloser, error)
+	StderrPipe() (io.ReadCloser, error)
+	StdinPipe() (io.WriteCloser, error)
+	Output() ([]byte, error)
+	Stop(sig int, parentOnly bool) error
+}
